@@ -81,7 +81,8 @@ HonestPresent(o) == \E q \in PeersOf(o) : Kd(o, q) = "H" /\ o.ban[q] = 0
 \*   hsrv    peers that served false cfheaders in the current call
 \*   ech, nev, ebad  (CFRace slice, C19) the chain a subscriber holds after the
 \*           first nev delivered block events, and whether an event did not fit
-AbsInit == [cpresp |-> {}, cpsrv |-> {}, hsrv |-> {}, ech |-> <<>>, nev |-> 0, ebad |-> 0]
+\*   cpB     the block chain when those lists arrived
+AbsInit == [cpresp |-> {}, cpsrv |-> {}, hsrv |-> {}, cpB |-> <<>>, ech |-> <<>>, nev |-> 0, ebad |-> 0]
 
 \* One delivered event applied to the chain the subscriber holds (block ids =
 \* heights in that slice).  Connected(b) = b+1 must extend the chain by one;
@@ -116,7 +117,7 @@ AbsNext(a, act, o2) ==
              st == EvFold(<<c0, a.ebad>>, o2.ev, a.nev + 1)
          IN  [a EXCEPT !.ech = st[1], !.nev = Len(o2.ev), !.ebad = st[2]]
     [] act.op = "GetCheckpts" ->
-         [a EXCEPT !.cpresp = {p \in PeersOf(o2) : InSeq(p, act.rs)}]
+         [a EXCEPT !.cpresp = {p \in PeersOf(o2) : InSeq(p, act.rs)}, !.cpB = o2.B]
     [] act.op = "RStart" ->
          [a EXCEPT !.cpsrv = {p \in a.cpresp : Kd(o2, p) \in KindCP
                                  /\ Kh(o2, p) <= (act.hi \div o2.cpi) * o2.cpi},
@@ -149,6 +150,23 @@ EventViol(a, o, a2, o2) ==
               /\ a2.ech # [h \in 1..Len(o2.F) |-> BlockOf(o2.F[h])])
        THEN {"EventsFollowChainOrder"} ELSE {}
 
+\* A peer whose OWN answers contradict each other - a false checkpoint, but
+\* cfheaders (hashes of the filters it serves) that do not hash up to it, or a
+\* PrevFilterHeader that is not its own previous checkpoint - has served a false
+\* filter header that is provably inconsistent ("does not hash to the advertised
+\* value").  When its cfheaders for the disputed interval arrive (RCfh), reach
+\* the disputed checkpoint, an honest peer answered too and the block chain has
+\* not changed since the checkpoint lists arrived, it must be banned in that step.
+SelfContradiction(a, o, act, o2) ==
+  IF /\ act.op = "RCfh" /\ a.cpB = o.B
+     /\ \E q \in a.cpresp : Kd(o2, q) = "H" /\ o.ban[q] = 0 /\ InSeq(q, act.rs)
+     /\ \E p \in a.cpsrv :
+          /\ InSeq(p, act.rs) /\ o2.ban[p] = 0
+          /\ Kh(o2, p) > act.lo /\ Kh(o2, p) <= act.lo + o2.cpi
+          /\ \/ Kd(o2, p) = "CP" /\ act.hi >= act.lo + o2.cpi
+             \/ Kd(o2, p) = "PV" /\ (act.lo > 0 \/ act.hi >= act.lo + o2.cpi)
+  THEN {"SelfContradictingLiarBanned"} ELSE {}
+
 Viol(a, o, act, a2, o2) ==
   LET F  == o.F
       F2 == o2.F
@@ -160,7 +178,7 @@ Viol(a, o, act, a2, o2) ==
                 ELSE IF act.op \in UOps THEN a2.hsrv ELSE {}
       allProvable == \A p \in srv : Kd(o2, p) \in Provable
   IN
-  EventViol(a, o, a2, o2) \cup
+  EventViol(a, o, a2, o2) \cup SelfContradiction(a, o, act, o2) \cup
   \* the filter chain never runs ahead of the block chain
   (IF m > Len(o2.B) THEN {"NotAhead"} ELSE {})
   \* each entry belongs to the block at the same height on the current chain
